@@ -623,7 +623,7 @@ def register_to_string(ix):
     ix.spec_names["json_canonical"] = sp_json_canonical
     ix.spec_names["json_unserializable"] = sp_json_unserializable
     ix.add(Contract(
-        CF, "to_string", props=["C08"], params={"d": "Val"}, result="Str",
+        CF, "to_string", props=["C08", "C09", "C15"], params={"d": "Val"}, result="Str",
         raises={"LenaValueError": "json_unserializable(d)"},
         ensures=["result == json_canonical(d)"],
         # obligations on the library call itself (the library's part is tier A)
